@@ -1,7 +1,7 @@
 CONSTANTS
   Ctxs = {1, 2, 3, 4}
   Names = {"x", "y", "z"}
-  Boxes = {1, 2, 3, 4, 5, 6, 7, 8, 9, 10, 11, 12}
+  Boxes = {1, 2, 3, 4, 5, 6, 7, 8, 9, 10, 11, 12, 13, 14, 15, 16, 17, 18, 19, 20, 21, 22, 23}
 INIT Init
 NEXT Next
 POSTCONDITION Done
